@@ -493,7 +493,8 @@ def stmt_family(tier="quick") -> List[Tuple[str, str]]:
         # setup placement (before the main loop) + a minimal loop
         setup_src = HEADER + pre + 'a = analog_read("A0") - 512\nb = analog_read("A1") - 512\n' + body.strip("\n") + "\n" \
             + "while True:\n    mon.write(0)\n"
-        if tier == "thorough" or name in ("swap", "if_elif_else", "for_continue", "while_counter", "branch_var",
+        if tier == "thorough" or name in ("swap", "if_elif_else", "for_continue", "while_counter", "branch_var", "derived_after_loop",
+                                          "elif_pass",
                                           "list_loop", "augops", "for_range_var"):
             out.append((f"stmt/{name}/setup", setup_src))
         if tier == "thorough":
